@@ -5,6 +5,7 @@ row model (`Model/Plane.lean`): every model step on a row `p` is the translated 
 import SqModel.Generated.TransPlane
 import SqModel.Proofs.BridgeRat
 import SqModel.Model.Plane
+import SqModel.Model.Render
 
 namespace Sq.Bridge
 open Sq Spec
@@ -560,6 +561,52 @@ theorem update_from_downlink_Ext_sim (te : TEnv) (p : Plane) (d : Ext) :
   · simp only [hi, if_true]
     exact key
   · simp [hi]
+
+-- planes.rs: sort_printed_planes ----------------------------------------------------------------------------
+/-- every `-o` letter compares two rows as the model's `sortKey` does ('C', which no property names, for
+    categories below 2^20: the code negates an `i32`) -/
+theorem sort_key_sim (c : Char) (p q : Plane)
+    (hC : c = 'C' → p.category.1 < 1048576 ∧ p.category.2 < 1048576 ∧ q.category.1 < 1048576 ∧ q.category.2 < 1048576) :
+    (T.sort_key c).map (fun k => (k.1 (planeToT p) (planeToT q), k.2))
+      = (sortKey c).map (fun k => (k.1 p q, k.2)) := by
+  unfold T.sort_key sortKey
+  by_cases h : c = 'C'
+  · obtain ⟨a, b, d, e⟩ := hC h
+    subst h
+    have b1 : (p.category.1 <<< 1) ||| p.category.2 < 2147483648 := by
+      have := @Nat.or_lt_two_pow (p.category.1 <<< 1) p.category.2 22 (by rw [Nat.shiftLeft_eq]; omega) (by omega)
+      omega
+    have b2 : (q.category.1 <<< 1) ||| q.category.2 < 2147483648 := by
+      have := @Nat.or_lt_two_pow (q.category.1 <<< 1) q.category.2 22 (by rw [Nat.shiftLeft_eq]; omega) (by omega)
+      omega
+    have e1 : (planeToT p).category = p.category := rfl
+    have e2 : (planeToT q).category = q.category := rfl
+    simp [e1, e2, u32ToI32_of_lt b1, u32ToI32_of_lt b2]
+  by_cases h97 : c = 'a'
+  · subst h97; simp [planeToT]
+  by_cases h65 : c = 'A'
+  · subst h65; simp [planeToT]
+  by_cases h99 : c = 'c'
+  · subst h99; simp [planeToT]
+  by_cases h100 : c = 'd'
+  · subst h100; simp [planeToT]
+  by_cases h68 : c = 'D'
+  · subst h68; simp [planeToT]
+  by_cases h78 : c = 'N'
+  · subst h78; simp [planeToT]
+  by_cases h83 : c = 'S'
+  · subst h83; simp [planeToT]
+  by_cases h87 : c = 'W'
+  · subst h87; simp [planeToT]
+  by_cases h69 : c = 'E'
+  · subst h69; simp [planeToT]
+  by_cases h115 : c = 's'
+  · subst h115; simp [planeToT]
+  by_cases h86 : c = 'V'
+  · subst h86; simp [planeToT]
+  by_cases h118 : c = 'v'
+  · subst h118; simp [planeToT]
+  simp [*]
 
 -- constructors that only `impl Default` reaches
 theorem capability_new_eq : T.Capability.new = capToT {} := rfl
